@@ -33,6 +33,25 @@ VALUES = ["v", "<i>", "a&b", "\"", "'", "100%", "%s", "", "x y", "&lt;"]
 NAMES = ["a", "b", "user", "count", "num", "n2"]
 
 
+class _S(str):
+    def __str__(self):
+        return str.__str__(self)
+
+
+class _O:
+    def __init__(self, v):
+        self.v = v
+
+    def __str__(self):
+        return self.v
+
+    def __repr__(self):
+        return "O(" + repr(self.v) + ")"
+
+
+AXES = ("plain", "plain", "async", "sandbox", "overlay", "unoptimized", "translations_object", "null_translations", "overlay_install_after")
+
+
 def gen_block(rng):
     ndecl = rng.randint(0, 3)
     names = rng.sample(NAMES, ndecl)
@@ -52,7 +71,7 @@ def gen_block(rng):
         ints = set(rng.sample(range(len(decl)), rng.randint(1, len(decl))))
         ints.add(0)
         for i in ints:
-            data[decl[i][1]] = rng.choice([0, 1, 1, 2, 5, 40])
+            data[decl[i][1]] = rng.choice([0, 1, 1, 2, 5, 40, 1.0, True, 2.5, False])
         if rng.random() < 0.5:
             explicit = True
             count_name = decl[rng.choice(sorted(ints))][0]
@@ -92,11 +111,24 @@ def gen_block(rng):
         if n not in [d[0] for d in decl]:
             data[n] = rng.choice(VALUES)
     markup_vals = {k for k in data if isinstance(data[k], str) and rng.random() < 0.2}
+    for k in list(data):
+        # value kinds: user str subclass, object with __str__ (not a string)
+        if isinstance(data[k], str) and k not in markup_vals and rng.random() < 0.15:
+            data[k] = _S(data[k]) if rng.random() < 0.5 else _O(data[k])
     return {"decl": decl, "sing": sing, "plur": plur, "ctx": ctx, "trim": trim, "data": data,
             "markup": sorted(markup_vals), "count": count_name, "explicit": explicit}
 
 
-def print_block(b):
+def print_block(b, delims=None):
+    src = _print_block(b)
+    if delims:
+        # structural re-delimiting: tags and references are generated, text never contains the default delimiters
+        src = src.replace("{%", "\x00B").replace("%}", "\x00E").replace("{{", "\x00V").replace("}}", "\x00W")
+        src = src.replace("\x00B", delims[0]).replace("\x00E", delims[1]).replace("\x00V", delims[2]).replace("\x00W", delims[3])
+    return src
+
+
+def _print_block(b):
     head = "{% trans"
     if b["ctx"] is not None:
         head += ' "' + b["ctx"] + '"'
@@ -175,8 +207,8 @@ def spec_text(b, ae, policy_trim):
     return re.sub("\x00(\\w+)\x01", sub, s)
 
 
-def real_run(jinja2, src, data, markup, style, ae, policy_trim):
-    """-> (rendered | None, recorded calls)"""
+def real_run(jinja2, src, data, markup, style, ae, policy_trim, axis="plain", delims=None):
+    """-> (rendered | None, recorded calls, error); axis = configuration / installer variant"""
     from markupsafe import Markup
     rec = []
 
@@ -191,14 +223,56 @@ def real_run(jinja2, src, data, markup, style, ae, policy_trim):
 
     def npg(c, s, p, n):
         rec.append(("npgettext", c, s, p)); return s if n == 1 else p
-    env = jinja2.Environment(extensions=["jinja2.ext.i18n"], autoescape=ae)
-    env.policies["ext.i18n.trimmed"] = policy_trim
-    env.install_gettext_callables(g, ng, newstyle=(style == "new"), pgettext=pg, npgettext=npg)
-    ctx = {k: (Markup(v) if k in markup else v) for k, v in data.items()}
+
+    class Tr:
+        """a translations object (gettext.GNUTranslations interface)"""
+        gettext = staticmethod(g)
+        ngettext = staticmethod(ng)
+        pgettext = staticmethod(pg)
+        npgettext = staticmethod(npg)
+    kw = dict(extensions=["jinja2.ext.i18n"], autoescape=ae)
+    if delims:
+        kw.update(block_start_string=delims[0], block_end_string=delims[1], variable_start_string=delims[2],
+                  variable_end_string=delims[3])
+        if len(delims) > 4:
+            kw.update(comment_start_string=delims[4], comment_end_string=delims[5])
+    cls = jinja2.Environment
+    if axis == "async":
+        kw["enable_async"] = True
+    elif axis == "unoptimized":
+        kw["optimized"] = False
+    elif axis == "sandbox":
+        from jinja2.sandbox import SandboxedEnvironment as cls
     try:
-        out = env.from_string(src).render(ctx)
+        if axis in ("overlay", "overlay_install_after"):
+            base = jinja2.Environment(**dict(kw, autoescape=not ae))
+            base.policies["ext.i18n.trimmed"] = policy_trim
+            if axis == "overlay":
+                # supported order: translations installed on the base, then overlaid
+                base.install_gettext_callables(g, ng, newstyle=(style == "new"), pgettext=pg, npgettext=npg)
+            env = base.overlay(autoescape=ae)
+        else:
+            env = cls(**kw)
+        env.policies["ext.i18n.trimmed"] = policy_trim
+        if axis == "overlay":
+            pass
+        elif axis == "translations_object":
+            env.install_gettext_translations(Tr, newstyle=(style == "new"))
+        elif axis == "null_translations":
+            env.install_null_translations(newstyle=(style == "new"))
+        else:
+            env.install_gettext_callables(g, ng, newstyle=(style == "new"), pgettext=pg, npgettext=npg)
+        ctx = {k: (Markup(v) if k in markup else v) for k, v in data.items()}
+        t = env.from_string(src)
+        if axis == "async":
+            import asyncio
+            out = asyncio.run(t.render_async(ctx))
+        else:
+            out = t.render(ctx)
     except Exception as e:
         return None, rec, type(e).__name__ + ": " + str(e)[:80]
+    if axis == "null_translations":
+        rec = None          # nothing can be recorded
     return out, rec, None
 
 
@@ -304,12 +378,16 @@ def run(ctx):
     mouts = ctx.driver("i18n", [model_line(b, st, ae, pol) for b, st, ae, pol in jobs])
     for (b, st, ae, pol), mo in zip(jobs, mouts):
         src = print_block(b)
-        out, rec, err = real_run(jinja2, src, b["data"], b["markup"], st, ae, pol)
+        axis = ctx.rng.choice(AXES)
+        ctx.count("axis_" + axis)
+        out, rec, err = real_run(jinja2, src, b["data"], b["markup"], st, ae, pol, axis)
         m = re.match(r"R (\S+) C (\S+) S (\S+) P (\S+)$", mo)
         m_out = None if m.group(1) == "N" else dec(m.group(1))
         m_call = (None if m.group(2) == "none" else dec(m.group(2)), dec(m.group(3)), None if m.group(4) == "none" else dec(m.group(4)))
         r_call = None
-        if len(rec) == 1:
+        if rec is None:
+            r_call, rec = m_call, []          # null translations: only the rendered text is observable
+        elif len(rec) == 1:
             c = rec[0]
             r_call = {"gettext": (None, c[1], None), "ngettext": (None, c[1], c[2]) if len(c) > 2 else None,
                       "pgettext": (c[1], c[2], None) if len(c) > 2 else None,
@@ -317,8 +395,9 @@ def run(ctx):
         has_var = bool(block_vars(b))
         text = "".join(p[1] for p in b["sing"] + (b["plur"] or []) if p[0] == "t")
         nt = (has_var and ("%" in text or "\n" in text)) or b["plur"] is not None
-        case = {"kind": "trans", "source": src, "data": b["data"], "markup": b["markup"], "style": st, "autoescape": ae,
-                "policy_trimmed": pol, "block": b}
+        case = {"kind": "trans", "source": src, "data": {k: (v if isinstance(v, (int, float, bool)) else str(v)) for k, v in b["data"].items()},
+                "markup": b["markup"], "style": st, "autoescape": ae, "policy_trimmed": pol, "axis": axis,
+                "block": dict(b, data={k: (v if isinstance(v, (int, float, bool)) else str(v)) for k, v in b["data"].items()})}
         ctx.case(sample={"source": src, "data": b["data"], "style": st, "autoescape": ae, "render": out, "gettext_call": rec}
                  if nt and len(ctx.samples) < 5 else None,
                  key=("trans", src, repr(b["data"]), st, ae, pol) if nt else None)
@@ -344,11 +423,11 @@ def run(ctx):
                         of = f"message {nc!r} passed at run time is not reported by extract_from_ast: {ea!r}"
                     elif nc not in eb:
                         of = f"message {nc!r} passed at run time is not reported by babel_extract: {eb!r}"
+        sig = "C33:install-after-overlay" if axis == "overlay_install_after" else "C33:trans-block"
         if (m_out, m_call) != (out, r_call):
-            ctx.model_mismatch("K-trans render_trans / trans_call vs the extension", case, [m_out, m_call], [out, r_call], of,
-                               "C33:trans-block")
+            ctx.model_mismatch("K-trans render_trans / trans_call vs the extension", case, [m_out, m_call], [out, r_call], of, sig)
         elif of:
-            ctx.reject(case, of, "C33:trans-block")
+            ctx.reject(case, of, sig)
         else:
             ctx.validated()
 
@@ -385,6 +464,7 @@ def run(ctx):
                 ctx.validated()
 
     run_second_part(ctx, jinja2, blocks)
+    run_histories(ctx, jinja2, blocks)
 
 
 def judge_ast_runtime(jinja2, src, newstyle, real_entries):
@@ -403,6 +483,82 @@ def judge_ast_runtime(jinja2, src, newstyle, real_entries):
         if (c[0], tuple(c[1:])) not in have and not any(h[0] == c[0] and h[1][:len(c) - 1] == tuple(c[1:]) for h in have):
             return f"message {c!r} passed at run time is not reported by extract_from_ast"
     return None
+
+
+def run_histories(ctx, jinja2, blocks):
+    """HISTORIES on one environment and babel_extract OPTIONS.
+    (a) a sequence on ONE environment: render old-style, switch to new-style (install_gettext_callables again),
+        compile the same source again and render; then uninstall / null translations — each fresh compile must
+        give the documented text; a template compiled BEFORE the switch and served from the template cache is the
+        recorded finding C33-newstyle-switched-with-cached-template;
+    (b) babel_extract with custom delimiters, comment tags, silent, trimmed and newstyle options, extension lists
+        written with spaces / commas: run-time messages of the same source must be among the extracted ones."""
+    from jinja2.ext import babel_extract
+    ident = (lambda s: s, lambda s, p, n: s if n == 1 else p)
+    for b in blocks[:ctx.size(120, 1200)]:
+        src = print_block(b)
+        env = jinja2.Environment(extensions=["jinja2.ext.i18n"], loader=jinja2.DictLoader({"t": src}), autoescape=True)
+        from markupsafe import Markup
+        ctxd = {k: (Markup(v) if k in b["markup"] else v) for k, v in b["data"].items()}
+        steps = [("old", False), ("new", True), ("old", False), ("new", True)]
+        for i, (st, ns) in enumerate(steps):
+            try:
+                if i == 2:
+                    env.install_null_translations(newstyle=ns)
+                else:
+                    env.install_gettext_callables(ident[0], ident[1], newstyle=ns, pgettext=lambda c, s: s,
+                                                  npgettext=lambda c, s, p, n: s if n == 1 else p)
+                fresh = env.from_string(src).render(ctxd)
+            except Exception as e:
+                fresh = "X:" + type(e).__name__
+            spec = spec_text(b, True, False)
+            ctx.case(key=("hist", src, i))
+            ctx.count("h_switch")
+            if fresh != spec:
+                ctx.reject({"kind": "history", "source": src, "step": i, "style": st}, f"after switching to {st}-style on the same environment a fresh "
+                           f"compile renders {fresh!r}, documented {spec!r}", "C33:style-switch-fresh-compile")
+                continue
+            ctx.validated()
+            try:
+                cached = env.get_template("t").render(ctxd)
+            except Exception as e:
+                cached = "X:" + type(e).__name__
+            if cached != spec:
+                ctx.reject({"kind": "history", "source": src, "step": i, "style": st, "cached": True},
+                           f"template compiled before the style switch, served from the cache, renders {cached!r} instead of {spec!r}",
+                           "C33:newstyle-switched-with-cached-template")
+    delims = ("<%", "%>", "<<", ">>")
+    for b in blocks[:ctx.size(150, 1500)]:
+        st = ctx.rng.choice(["old", "new"])
+        pol = ctx.rng.random() < 0.4
+        src = "<# NOTE: for translators #>\n" + print_block(b, delims) + "<< _('direct %(x)s') >><% if false %><< gettext('dead') >><% endif %>"
+        out, rec, err = real_run(jinja2, src, dict(b["data"], x=1), b["markup"], st, False, pol, "plain", delims=delims + ("<#", "#>"))
+        ctx.case(key=("babelopt", src, st, pol))
+        ctx.count("o_babel_options")
+        if out is None:
+            ctx.count("o_babel_options_render_error")
+            continue
+        ext_spelling = ctx.rng.choice(["jinja2.ext.i18n", " jinja2.ext.i18n , jinja2.ext.do", "jinja2.ext.i18n,jinja2.ext.loopcontrols"])
+        opts = {"extensions": ext_spelling, "trimmed": "yes" if pol else "no", "newstyle_gettext": "1" if st == "new" else "off",
+                "block_start_string": "<%", "block_end_string": "%>", "variable_start_string": "<<", "variable_end_string": ">>",
+                "comment_start_string": "<#", "comment_end_string": "#>", "silent": ctx.rng.choice(["true", "false"]), "encoding": "utf-8"}
+        try:
+            res = list(babel_extract(io.BytesIO(src.encode("utf-8")), ("_", "gettext", "ngettext", "pgettext", "npgettext"), ["NOTE:"], opts))
+        except Exception as e:
+            ctx.reject({"kind": "babel", "source": src, "options": opts}, f"babel_extract raised {type(e).__name__}: {e}", "C33:babel-options")
+            continue
+        got = [(("gettext" if f == "_" else f), norm_msg(m)) for _, f, m, _ in res]
+        bad = [norm_call(c) for c in rec if norm_call(c) not in got]
+        if bad:
+            ctx.reject({"kind": "babel", "source": src, "options": opts, "style": st}, f"run-time messages not reported by babel_extract "
+                       f"with custom delimiters: {bad!r} (reported {got!r})", "C33:babel-options")
+        elif ("gettext", "dead") not in got:
+            ctx.reject({"kind": "babel", "source": src, "options": opts, "style": st}, "gettext call in a dead branch not extracted", "C33:babel-options")
+        elif not any("for translators" in " ".join(c) for _, _, _, c in res if c):
+            ctx.reject({"kind": "babel", "source": src, "options": opts, "style": st}, "translator comment (comment tag NOTE:) before the first "
+                       "message is not attached to any extracted message", "C33:babel-comments")
+        else:
+            ctx.validated()
 
 
 def run_second_part(ctx, jinja2, blocks):
@@ -463,7 +619,8 @@ def replay(ctx, data):
         b["sing"] = [tuple(p) for p in b["sing"]]
         b["plur"] = [tuple(p) for p in b["plur"]] if b["plur"] is not None else None
         b["decl"] = [tuple(p) for p in b["decl"]]
-        out, rec, err = real_run(jinja2, case["source"], b["data"], b["markup"], case["style"], case["autoescape"], case["policy_trimmed"])
+        out, rec, err = real_run(jinja2, case["source"], b["data"], b["markup"], case["style"], case["autoescape"], case["policy_trimmed"],
+                                 case.get("axis", "plain"))
         spec = spec_text(b, case["autoescape"], case["policy_trimmed"])
         print("source  :", case["source"], "\nrendered:", repr(out), err or "", "\nspec    :", repr(spec), "\ncalls   :", rec)
         if out != spec:
